@@ -1,6 +1,6 @@
 (** Prop_C12.v -- C12: expiry never removes a channel that is active or has a subscriber. *)
 From MW Require Import Base Store Monad Usage Server Websocket Service Inv Obs
-     StepFacts SweepFacts Corollaries Inst_Params Inst_Timer ActivityFacts.
+     StepFacts SweepFacts Corollaries Inst_Params Inst_Timer ActivityFacts ArrivalFacts.
 From MWGen Require GenParams.
 Local Open Scope list_scope.
 
@@ -116,3 +116,36 @@ Proof. exact stale_after_faulty_sweeps. Qed.
 
 Example C12_constants_ok : params_ok GenParams.gen_exp GenParams.gen_period = true.
 Proof. exact gen_params_ok. Qed.
+
+(** * the periodic timer's own sweeps (quoted by type from ArrivalFacts.v) *)
+
+(** the away-time bound at a timer firing inside a clock advance *)
+Theorem C12_away_time_timer : ltac:(let t := type of away_time_timer in exact t).
+Proof. exact away_time_timer. Qed.
+Check C12_away_time_timer.
+Print Assumptions C12_away_time_timer.
+
+(** ... for a client that was subscribed *)
+Theorem C12_away_time_subscribed_timer : ltac:(let t := type of away_time_subscribed_timer in exact t).
+Proof. exact away_time_subscribed_timer. Qed.
+Check C12_away_time_subscribed_timer.
+Print Assumptions C12_away_time_subscribed_timer.
+
+(** a subscribed mailbox survives the timer's sweep and is re-stamped *)
+Theorem C12_subscriber_survives_timer : ltac:(let t := type of subscriber_survives_timer in exact t).
+Proof. exact subscriber_survives_timer. Qed.
+Check C12_subscriber_survives_timer.
+Print Assumptions C12_subscriber_survives_timer.
+
+(** (at a run-end state) *)
+Theorem C12_subscriber_survives_timer_run : ltac:(let t := type of subscriber_survives_timer_run in exact t).
+Proof. exact subscriber_survives_timer_run. Qed.
+Check C12_subscriber_survives_timer_run.
+Print Assumptions C12_subscriber_survives_timer_run.
+
+(** non-vacuity *)
+Theorem C12_timer_forms_nonvacuous : ltac:(let t := type of timer_forms_nonvacuous in exact t).
+Proof. exact timer_forms_nonvacuous. Qed.
+Check C12_timer_forms_nonvacuous.
+Print Assumptions C12_timer_forms_nonvacuous.
+
